@@ -290,3 +290,7 @@ impl<
         &mut self.payload
     }
 }
+
+#[cfg(all(aws_s2n_quic_verif, test))]
+#[path = "/verif/harness/core/packet_initial.rs"]
+mod verif;
